@@ -26,7 +26,7 @@ def ifaces_for(vt, cone, k, bounded):
     integer = any(v != 'C' for v in vt)
     if cone == 'exp':
         return ['eco']
-    if cone in ('norm2', 'square'):
+    if cone in ('norm2', 'square') or cone.startswith('ro-'):
         return ['grb', 'eco'] if not integer else ['grb']
     # ECOS' branch-and-bound (mi_max_iters=1e8 in eco_solver.py) does not return on infeasible or unbounded integer
     # programs (observed: x binary with x <= -1; 2*x0 - 3*x1 == -1 with x0 == 0): a hang cannot be judged, so the
@@ -59,7 +59,7 @@ def run(rep, tier, props):
             n = cap // len(cfgs)
             decls.extend(mixed[:2 * n // 3] + cont[:n // 3])
         jobs = []
-        cones = ['none', 'none', 'none', 'norm2', 'none', 'square', 'none', 'exp']
+        cones = ['none', 'none', 'none', 'norm2', 'none', 'square', 'none', 'exp', 'none', 'ro-sumsqr', 'none', 'ro-quad', 'none', 'ro-norm2r2', 'none', 'ro-square']
         for k, d in enumerate(decls):
             cone = cones[k % len(cones)]
             if cone == 'exp' and any(v != 'C' for v in d['decl']['vt']):
